@@ -38,6 +38,37 @@ M = {
 		return nil, fmt.Errorf("cache get: %w", err)
 	}
 '''),
+ # removes the field the hook reads: the hook no longer compiles; AND a rejected reply is stored
+ "done-field-removed-stores-rejected": [
+  ("jrpc2/client.go", "	nreads int\n	done   bool\n	d      []eth.Block\n}", "	nreads int\n	d      []eth.Block\n}"),
+  ("jrpc2/client.go", '''	if seg.done {
+		return seg.d, nil
+	}
+
+	blocks, err := f(ctx, url, start, limit)
+	if err != nil {
+		return nil, fmt.Errorf("cache get: %w", err)
+	}
+
+	seg.d = blocks
+	seg.done = true
+	return seg.d, nil''', '''	if seg.d != nil {
+		return seg.d, nil
+	}
+
+	var err error
+	seg.d, err = f(ctx, url, start, limit)
+	if err != nil {
+		return nil, fmt.Errorf("cache get: %w", err)
+	}
+	return seg.d, nil''')],
+ # the same refactoring done correctly: only the hook breaks
+ "done-field-renamed": [
+  ("jrpc2/client.go", "	nreads int\n	done   bool\n	d      []eth.Block\n}", "	nreads int\n	filled bool\n	d      []eth.Block\n}"),
+  ("jrpc2/client.go", "	if seg.done {", "	if seg.filled {"),
+  ("jrpc2/client.go", "	seg.done = true", "	seg.filled = true")],
+ "traces-merge-not-replace": ("jrpc2/client.go", "			tx.TraceActions = make([]eth.TraceAction, len(traces))\n			for i := range traces {\n				ta := traces[i].Action\n				ta.Idx = uint64(i)\n				tx.TraceActions[i] = ta\n			}", "			for i := range traces {\n				ta := traces[i].Action\n				ta.Idx = uint64(i)\n				tx.TraceActions = append(tx.TraceActions, ta)\n			}"),
+ "traces-no-empty-check": ("jrpc2/client.go", "		if len(res.Result) == 0 {\n			return fmt.Errorf(\"no rpc error but empty result\")\n		}\n		for j := range res.Result {\n			if got := res.Result[j].BlockNum", "		for j := range res.Result {\n			if got := res.Result[j].BlockNum"),
  "prune-maxread-gt": ("jrpc2/client.go", "if v.nreads >= c.maxreads {", "if v.nreads > c.maxreads {"),
  "head-maxread-gt": ("jrpc2/client.go", "if nh.nreads >= nh.maxreads {", "if nh.nreads > nh.maxreads {"),
  "prune-lowest": ("jrpc2/client.go", "return keys[i].a > keys[j].a", "return keys[i].a < keys[j].a"),
@@ -93,11 +124,12 @@ if name == "revert-fix":
     r = subprocess.run(["patch", "-R", "-p1", "-i", "/verif/fixes/C08-receipts-block-lock.diff"], cwd=dst, capture_output=True, text=True)
     assert r.returncode == 0, r.stdout + r.stderr
 else:
-    f, old, new = M[name]
-    p = os.path.join(dst, f)
-    s = open(p).read()
-    assert s.count(old) == 1, (name, s.count(old))
-    open(p, "w").write(s.replace(old, new))
+    edits = M[name] if isinstance(M[name], list) else [M[name]]
+    for f, old, new in edits:
+        p = os.path.join(dst, f)
+        s = open(p).read()
+        assert s.count(old) == 1, (name, s.count(old))
+        open(p, "w").write(s.replace(old, new))
 env = dict(os.environ, VERIF_REPO=dst, GOFLAGS="-mod=mod", GOPROXY="off", GOSUMDB="off", GOTOOLCHAIN="local")
 b = subprocess.run("go build ./jrpc2/ ./eth/ && go vet ./jrpc2/ 2>&1 | grep -v 'copies lock\\|^#' | head -3", shell=True, cwd=dst, env=env, capture_output=True, text=True)
 r = subprocess.run(["/verif/bin/check", "C08", "--tier", "quick"], cwd="/verif", env=env, capture_output=True, text=True)
